@@ -176,10 +176,26 @@ def check_header_clones(ctx, db):
     clone.check_family(ctx, 'R-CLONE', 'gds-trailer', [('Library::write_gds[trailer]', wg.loc(), a), ('GdsWriter::close', cl.loc(), b)], 2)
     # write_cell passes unit / precision as scaling and precision, like write_gds
     wc = db.fn('gdstk::GdsWriter::write_cell')
-    t = norm(clone.canon(wc.body, wc, ren=clone.Renamer(wc, params_by_name=True)))
-    sc = next((v for v in wg.walk() if v.k == 'VarDecl' and v.n == 'scaling'), None)
-    ok = '(this->unit / this->precision), this->max_points, this->precision, (&this->timestamp))' in t and sc is not None and norm(sc.child('init').text()) == '(this->unit / this->precision)'
-    ctx.check(ok, 'R-CLONE', 'gds-cell-scaling', wc.loc(), 'both writers hand cells scaling = unit / precision and the same precision')
+    # what each writer hands to Cell::to_gds, evaluated (sa/minieval, exact rationals) for unit 1e-6, precision 1e-9, max_points 199
+    from .. import minieval as _M
+    from fractions import Fraction as _F
+
+    def cell_args(fn, this):
+        calls = [c for c in fn.walk() if c.k == 'CXXMemberCallExpr' and (c.callee or '') == 'gdstk::Cell::to_gds']
+        if len(calls) != 1:
+            raise AnalysisBroken('%s: exactly one call of Cell::to_gds expected' % fn.qn)
+        out = []
+        for a_ in calls[0].args[1:4]:
+            out.append(_M.value_at(db, a_, members={'this->unit': this['unit'], 'this->precision': this['precision'], 'this->max_points': this['max_points'], 'unit': this['unit'], 'precision': this['precision']},
+                                   env0={'max_points': this['max_points'], 'this': this}, obj_store=True))
+        return out
+    this_ = _M.Obj(unit=_F(1, 10 ** 6), precision=_F(1, 10 ** 9), max_points=199)
+    try:
+        got_w, got_l = cell_args(wc, this_), cell_args(wg, this_)
+    except AnalysisBroken as ex:
+        got_w, got_l = str(ex), None
+    ok = got_w == [_F(1000), 199, _F(1, 10 ** 9)] and got_l == got_w
+    ctx.check(ok, 'R-CLONE', 'gds-cell-scaling', wc.loc(), 'both writers hand cells scaling = unit / precision, their max_points and the same precision', 'for unit 1e-6, precision 1e-9, max_points 199: GdsWriter::write_cell hands over %s, Library::write_gds %s' % (got_w, got_l))
 
 
 def header_bytes(db, which, name, ts):
